@@ -10,7 +10,7 @@
    left exactly at the octet after the marker.  If the stream has no end
    marker the reader fails with the schedule's error (never EOF) after
    delivering the specified octets (at most one withheld CR short). *)
-From Smtp Require Import Bytes Transport DataReader DotSpec TransportProofs DataProofs.
+From Smtp Require Import Bytes Transport DataReader DotSpec TransportProofs DataProofs DotSpecOrder.
 
 Theorem C01_byte_exact (t : transport) (sizes : list nat) :
   transparent t ->
@@ -36,6 +36,30 @@ Theorem C01_schedule_and_read_size_independent
   tstream t1' = rest /\ tstream t2' = rest.
 Proof. exact (data_schedule_independent t1 t2 sizes1 sizes2 body rest). Qed.
 Print Assumptions C01_schedule_and_read_size_independent.
+
+(* "every other octet unchanged and in order", stated without reference to the
+   specification function: whatever the schedule and the read sizes, what the
+   backend has read is an order-preserving subsequence of the octets of the
+   stream (nothing invented, duplicated or reordered); once it has seen
+   io.EOF, of exactly the octets the reader consumed from the transport, of
+   which at least three (the end marker) were not delivered. *)
+Theorem C01_no_octet_invented (t : transport) (sizes : list nat) :
+  transparent t ->
+  let '(out, e, d', t') := backend_reads sizes None (new_data_reader 0) t in
+  subseq out (tstream t) /\
+  (e = Some REOF ->
+   exists m, tstream t = m ++ tstream t' /\ subseq out m /\
+             List.length out + 3 <= List.length m).
+Proof. exact (data_no_octet_invented t sizes). Qed.
+Print Assumptions C01_no_octet_invented.
+
+(* spec level: the body plus the marker plus the unread rest never exceed the stream *)
+Theorem C01_body_shorter_than_stream s body rest :
+  unstuff s = Complete body rest ->
+  List.length body + 3 + List.length rest <= List.length s.
+Proof. exact (unstuff_body_shorter s body rest). Qed.
+Print Assumptions C01_body_shorter_than_stream.
+
 
 (* non-vacuity: a concrete two-segment schedule under a line limit satisfies
    the hypothesis, and the theorem's conclusion is the expected one *)
